@@ -141,7 +141,7 @@ func (p cfgPath) Has(cfg *Config, opt *options) (bool, Error) {
 	cur := value(cfgSub{cfg})
 	for ; len(fields) > 0; fields = fields[1:] {
 		field := fields[0]
-		next, err := field.GetValue(opt, cur)
+		next, err := getScoped(opt, field, cur)
 		if err != nil {
 			// has checks if a value is missing -> ErrMissing is no error but a valid
 			// outcome
@@ -164,19 +164,10 @@ func (p cfgPath) Has(cfg *Config, opt *options) (bool, Error) {
 func (p cfgPath) GetValue(cfg *Config, opt *options) (value, Error) {
 	fields := p.fields
 
-	// a reference met on the way is evaluated completely before the walk goes on:
-	// afterwards it is no longer being evaluated
-	get := func(f field, cur value) (value, Error) {
-		active := opt.activeFields
-		opt.activeFields = newFieldSet(active)
-		defer func() { opt.activeFields = active }()
-		return f.GetValue(opt, cur)
-	}
-
 	cur := value(cfgSub{cfg})
 	for ; len(fields) > 1; fields = fields[1:] {
 		field := fields[0]
-		next, err := get(field, cur)
+		next, err := getScoped(opt, field, cur)
 		if err != nil {
 			return nil, err
 		}
@@ -189,11 +180,20 @@ func (p cfgPath) GetValue(cfg *Config, opt *options) (value, Error) {
 	}
 
 	field := fields[0]
-	v, err := get(field, cur)
+	v, err := getScoped(opt, field, cur)
 	if err != nil {
 		return nil, raiseMissing(cfg, field.String())
 	}
 	return v, nil
+}
+
+// getScoped takes one step of a path walk. A reference met on the way is evaluated
+// completely before the walk goes on: afterwards it is no longer being evaluated.
+func getScoped(opt *options, f field, cur value) (value, Error) {
+	active := opt.activeFields
+	opt.activeFields = newFieldSet(active)
+	defer func() { opt.activeFields = active }()
+	return f.GetValue(opt, cur)
 }
 
 func (n namedField) GetValue(opts *options, elem value) (value, Error) {
